@@ -515,73 +515,89 @@ c06_char_big! {c06_rsplit_terminator_char_big, Which::RSplitTerminator}
 // spec adequacy: the reference sequences vs the real std iterators (char delimiters; the empty
 // &str delimiter separately — std's non-empty &str searcher is Two-Way and too heavy for CBMC)
 
-harness! {
-    /// kind=bounded tier=thorough bound="spec adequacy: ref_split_seq/ref_rsplit_seq/term_count vs str::split/rsplit/split_terminator with char delimiters, string<=5 bytes"
-    #[kani::unwind(9)]
-    fn c06_spec_vs_std_char(s) {
-        let hs = BStr::<5>::any(s);
-        let c = s.char();
-        let h = hs.as_str();
-        let hb = h.as_bytes();
-        let mut tmp = [0u8; 4];
-        let db = c.encode_utf8(&mut tmp).as_bytes();
-        let occ = occurrences::<5, 4>(hb, db);
-        let q = ref_split_seq::<5>(hb, db.len(), &occ);
-        let r = ref_rsplit_seq::<5>(hb, db.len(), &occ);
-        let mut k = 0;
-        for p in h.split(c) {
-            chk!(s, k < q.n && is_subslice_at(hb, p.as_bytes(), q.a[k], q.b[k]), "SPEC.ref_split_seq.piece_eq_std_split_char");
-            k += 1;
+macro_rules! c06_spec_char {
+    ($name:ident, $refseq:ident, $stdfn:ident, $term:expr, $o_piece:literal, $o_count:literal) => {
+        harness! {
+            /// kind=bounded tier=thorough bound="spec adequacy: the reference sequence vs the real std iterator of the same name with a char delimiter (any char), string<=4 bytes"
+            #[kani::unwind(8)]
+            fn $name(s) {
+                let hs = BStr::<4>::any(s);
+                let c = s.char();
+                let h = hs.as_str();
+                let hb = h.as_bytes();
+                let mut tmp = [0u8; 4];
+                let db = c.encode_utf8(&mut tmp).as_bytes();
+                let occ = occurrences::<4, 4>(hb, db);
+                let q = $refseq::<4>(hb, db.len(), &occ);
+                let n = if $term { term_count(&q) } else { q.n };
+                let mut it = h.$stdfn(c);
+                let mut k = 0;
+                let mut live = true;
+                while k < 6 {
+                    if live {
+                        match it.next() {
+                            Some(p) => {
+                                chk!(s, k < n && is_subslice_at(hb, p.as_bytes(), q.a[k], q.b[k]), $o_piece);
+                            }
+                            None => {
+                                chk!(s, k == n, $o_count);
+                                live = false;
+                            }
+                        }
+                    }
+                    k += 1;
+                }
+                chk!(s, !live, $o_count);
+                cov!(s, q.n == 3 && db.len() == 2 && hb.len() == 4, "SPEC.cover.char2_three_pieces");
+                cov!(s, q.n == 3 && db.len() == 1 && q.a[2] == q.b[2] && q.a[0] != q.b[0], "SPEC.cover.last_piece_empty");
+                cov!(s, q.n == 5, "SPEC.cover.five_pieces");
+            }
         }
-        chk!(s, k == q.n, "SPEC.ref_split_seq.count_eq_std_split_char");
-        let mut k = 0;
-        for p in h.rsplit(c) {
-            chk!(s, k < r.n && is_subslice_at(hb, p.as_bytes(), r.a[k], r.b[k]), "SPEC.ref_rsplit_seq.piece_eq_std_rsplit_char");
-            k += 1;
-        }
-        chk!(s, k == r.n, "SPEC.ref_rsplit_seq.count_eq_std_rsplit_char");
-        let mut k = 0;
-        for p in h.split_terminator(c) {
-            chk!(s, k < q.n && is_subslice_at(hb, p.as_bytes(), q.a[k], q.b[k]), "SPEC.term_count.piece_eq_std_split_terminator_char");
-            k += 1;
-        }
-        chk!(s, k == term_count(&q), "SPEC.term_count.count_eq_std_split_terminator_char");
-        cov!(s, q.n == 3 && db.len() == 2 && hb.len() == 5, "SPEC.cover.split_char2_three_pieces");
-        cov!(s, q.n == 2 && term_count(&q) == 1, "SPEC.cover.terminator_drops_empty");
-    }
+    };
 }
+c06_spec_char! {c06_spec_split_char, ref_split_seq, split, false, "SPEC.ref_split_seq.piece_eq_std_split_char", "SPEC.ref_split_seq.count_eq_std_split_char"}
+c06_spec_char! {c06_spec_rsplit_char, ref_rsplit_seq, rsplit, false, "SPEC.ref_rsplit_seq.piece_eq_std_rsplit_char", "SPEC.ref_rsplit_seq.count_eq_std_rsplit_char"}
+c06_spec_char! {c06_spec_split_terminator_char, ref_split_seq, split_terminator, true, "SPEC.term_count.piece_eq_std_split_terminator_char", "SPEC.term_count.count_eq_std_split_terminator_char"}
 
-harness! {
-    /// kind=bounded tier=thorough bound="spec adequacy: the empty-delimiter branch of ref_split_seq/ref_rsplit_seq/term_count vs std split/rsplit/split_terminator with an empty &str pattern, string<=4 bytes"
-    #[kani::unwind(8)]
-    fn c06_spec_vs_std_empty(s) {
-        let hs = BStr::<4>::any(s);
-        let h = hs.as_str();
-        let hb = h.as_bytes();
-        let occ = [false; MAXP];
-        let q = ref_split_seq::<4>(hb, 0, &occ);
-        let r = ref_rsplit_seq::<4>(hb, 0, &occ);
-        let mut k = 0;
-        for p in h.split("") {
-            chk!(s, k < q.n && is_subslice_at(hb, p.as_bytes(), q.a[k], q.b[k]), "SPEC.ref_split_seq.piece_eq_std_split_empty");
-            k += 1;
+macro_rules! c06_spec_empty {
+    ($name:ident, $refseq:ident, $stdfn:ident, $term:expr, $o_piece:literal, $o_count:literal) => {
+        harness! {
+            /// kind=bounded tier=thorough bound="spec adequacy: the empty-delimiter branch of the reference sequence vs the real std iterator of the same name with an empty &str pattern, string<=4 bytes"
+            #[kani::unwind(8)]
+            fn $name(s) {
+                let hs = BStr::<4>::any(s);
+                let h = hs.as_str();
+                let hb = h.as_bytes();
+                let occ = [false; MAXP];
+                let q = $refseq::<4>(hb, 0, &occ);
+                let n = if $term { term_count(&q) } else { q.n };
+                let mut it = h.$stdfn("");
+                let mut k = 0;
+                let mut live = true;
+                while k < 7 {
+                    if live {
+                        match it.next() {
+                            Some(p) => {
+                                chk!(s, k < n && is_subslice_at(hb, p.as_bytes(), q.a[k], q.b[k]), $o_piece);
+                            }
+                            None => {
+                                chk!(s, k == n, $o_count);
+                                live = false;
+                            }
+                        }
+                    }
+                    k += 1;
+                }
+                chk!(s, !live, $o_count);
+                cov!(s, hb.len() == 4 && q.n == 4 && hb[0] >= 0xC2, "SPEC.cover.empty_delim_multibyte");
+                cov!(s, hb.len() == 0, "SPEC.cover.empty_delim_empty_input");
+            }
         }
-        chk!(s, k == q.n, "SPEC.ref_split_seq.count_eq_std_split_empty");
-        let mut k = 0;
-        for p in h.rsplit("") {
-            chk!(s, k < r.n && is_subslice_at(hb, p.as_bytes(), r.a[k], r.b[k]), "SPEC.ref_rsplit_seq.piece_eq_std_rsplit_empty");
-            k += 1;
-        }
-        chk!(s, k == r.n, "SPEC.ref_rsplit_seq.count_eq_std_rsplit_empty");
-        let mut k = 0;
-        for p in h.split_terminator("") {
-            chk!(s, k < q.n && is_subslice_at(hb, p.as_bytes(), q.a[k], q.b[k]), "SPEC.term_count.piece_eq_std_split_terminator_empty");
-            k += 1;
-        }
-        chk!(s, k == term_count(&q), "SPEC.term_count.count_eq_std_split_terminator_empty");
-        cov!(s, hb.len() == 4 && q.n == 4 && hb[0] >= 0xC2, "SPEC.cover.empty_delim_multibyte");
-    }
+    };
 }
+c06_spec_empty! {c06_spec_split_empty, ref_split_seq, split, false, "SPEC.ref_split_seq.piece_eq_std_split_empty", "SPEC.ref_split_seq.count_eq_std_split_empty"}
+c06_spec_empty! {c06_spec_rsplit_empty, ref_rsplit_seq, rsplit, false, "SPEC.ref_rsplit_seq.piece_eq_std_rsplit_empty", "SPEC.ref_rsplit_seq.count_eq_std_rsplit_empty"}
+c06_spec_empty! {c06_spec_split_terminator_empty, ref_split_seq, split_terminator, true, "SPEC.term_count.piece_eq_std_split_terminator_empty", "SPEC.term_count.count_eq_std_split_terminator_empty"}
 
 // ---------------------------------------------------------------------------
 // (kept at the end of the file: the runner's template discovery takes the first `macro_rules!`
